@@ -16,8 +16,8 @@
 #define EXT2 "/vmem/c14_b.ext"
 #define NEWX "/vmem/c14_new.ext"
 
-static int32 fid, gr, ri, ricr, an, ann, sd, sds0, sds1, sdsx, sdsc, vs, vg, aid, aidl, aidx;
-static int32 g_vsref, g_vgref;
+static int32 fid, gr, ri, ricr, vse, an, ann, sd, sds0, sds1, sdsx, sdsc, vs, vg, aid, aidl, aidx;
+static int32 g_vsref, g_vgref, g_vseref;
 static uint64_t g_hm, g_he1, g_he2;
 static uint64_t g_h0;     /* hash of all files right after the corpus was closed */
 static uint64_t g_digest; /* content digest of the corpus */
@@ -62,6 +62,13 @@ build_corpus(void)
     int32 av = 5;
     VSsetattr(v, _HDF_VDATA, "va", DFNT_INT32, 1, &av);
     g_vsref = VSQueryref(v);
+    {
+        /* a Vdata that has neither fields nor records yet */
+        int32 e = VSattach(f, -1, "w");
+        VSsetname(e, "empty");
+        g_vseref = VSQueryref(e);
+        VSdetach(e);
+    }
     int32 g = Vattach(f, -1, "w");
     Vsetname(g, "grp");
     Vsetclass(g, "cls");
@@ -242,6 +249,7 @@ open_readonly(void)
     aidx = Hstartread(fid, 1000, 3);
     Vstart(fid);
     vs  = VSattach(fid, g_vsref, "r");
+    vse = VSattach(fid, g_vseref, "r");
     vg  = Vattach(fid, g_vgref, "r");
     gr  = GRstart(fid);
     ri  = GRselect(gr, 0);
@@ -266,7 +274,7 @@ open_readonly(void)
     sds1 = SDselect(sd, SDnametoindex(sd, "unl"));
     sdsx = SDselect(sd, SDnametoindex(sd, "extern"));
     sdsc = SDselect(sd, SDnametoindex(sd, "chunked"));
-    return (aid == FAIL || vs == FAIL || vg == FAIL || ri == FAIL || ricr == FAIL || ann == FAIL || sds0 == FAIL || sds1 == FAIL || sdsx == FAIL) ? -1 : 0;
+    return (aid == FAIL || vs == FAIL || vse == FAIL || vg == FAIL || ri == FAIL || ricr == FAIL || ann == FAIL || sds0 == FAIL || sds1 == FAIL || sdsx == FAIL) ? -1 : 0;
 }
 
 /* ------------------------------------------------------------------ the alphabet */
@@ -380,6 +388,7 @@ terminal(void)
     Hendaccess(aidl);
     Hendaccess(aidx);
     VSdetach(vs);
+    VSdetach(vse);
     Vdetach(vg);
     Vend(fid);
     GRendaccess(ri);
